@@ -226,7 +226,7 @@ def stress(chk, w2c2, quick, imported=False):
         return
     open(os.path.join(d, 'atomtab.h'), 'w').write(atomtab(names))
     srcs = [os.path.join(d, f) for f in t.files if f.endswith('.c')] + [os.path.join(env.VERIF, 'harness', 'atomics_stress.c')]
-    builds = [('plain-O2', ['-O2']), ('tsan', ['-O1', '-g', '-fsanitize=thread']), ('asan', ['-O1', '-g', '-fsanitize=address,undefined', '-fno-sanitize-recover=all'])]
+    builds = [('plain-O2', ['-O2', '-DNDEBUG']), ('tsan', ['-O1', '-g', '-fsanitize=thread']), ('asan', ['-O1', '-g', '-fsanitize=address,undefined', '-fno-sanitize-recover=all'])]
     if not quick:
         builds.append(('clang-O2', ['-O2']))
     exes = {}
